@@ -340,6 +340,22 @@ def build(spec):
         o.category = "reverse complement of a queried matrix"
         o.desc = "the %d values of the discretised survival function of the reverse complement" % len(sf)
         return o
+    elif cls == "ScoreDistribution" and spec.get("background") == "wildcard_mass":
+        # a background that gives the WILDCARD a frequency (accepted by ScoringMatrix(values, background=...)): the words
+        # containing the wildcard take part in the survival function
+        assert not protein
+        a = alpha(False)
+        freqs = {"A": 0.25, "C": 0.125, "T": 0.125, "G": 0.25, "N": 0.25}
+        p = lightmotif.ScoringMatrix({sym: [dist_cell(i, k) for i in range(M)] for k, sym in enumerate(a)}, background=freqs)
+        o = Obj(cls, p.score_distribution)
+        sf = sf_model(M, False, dist_cell, background=[freqs[sym] for sym in a])
+        o.buffer, o.alloc = True, len(sf) * 8
+        o.layouts = [((len(sf),), {(i,): sf[i] for i in range(len(sf))})]
+        o.view_rel = 1e-9
+        o.keep = p
+        o.category = "background with wildcard mass"
+        o.desc = "the %d values of the discretised survival function under a background with wildcard frequency 0.25" % len(sf)
+        return o
     elif cls == "ScoreDistribution":
         p = make_pssm(M, protein, "dist")
         o = Obj(cls, p.score_distribution)
@@ -672,6 +688,7 @@ def space_view_fresh(ctx, rep):
                 specs.append({"cls": "ScoreDistribution", "protein": protein, "M": M})
                 if not protein and M <= 8:
                     specs.append({"cls": "ScoreDistribution", "protein": False, "M": M, "history": [["rc_after_pvalue"]]})
+                    specs.append({"cls": "ScoreDistribution", "protein": False, "M": M, "background": "wildcard_mass"})
         for L in L_:
             for M in widths(ctx):
                 for arm in ARMS:
@@ -941,7 +958,7 @@ def replay(ctx, rep, case):
     kind = case.get("kind")
     space = case.get("space") or "replay"
     rep.space(space, "replay of one recorded case")
-    spec = {k: case[k] for k in ("cls", "protein", "L", "M", "arm", "history") if k in case}
+    spec = {k: case[k] for k in ("cls", "protein", "L", "M", "arm", "history", "background") if k in case}
     try:
         if kind == "stale_view":
             before, checksum, expected = stale_history(rep, spec)
